@@ -24,6 +24,7 @@ import (
 	"github.com/samaritan-proxy/samaritan/pb/config/protocol"
 	"github.com/samaritan-proxy/samaritan/pb/config/service"
 	"github.com/samaritan-proxy/samaritan/proc"
+	"google.golang.org/grpc/codes"
 	"pgregory.net/rapid"
 
 	"verif/harness/discsim"
@@ -154,7 +155,10 @@ type grpcCase struct {
 	// Static: the bootstrap also holds one static service (a name discovery never mentions): it must keep running with its
 	// own configuration and hosts whatever happens to the discovered services
 	Static bool  `json:"static,omitempty"`
-	Ops    []gop `json:"ops"`
+	// KillCode: the gRPC status a killed stream ends with on the client side (0: Unavailable; 1: Canceled - a server or a
+	// proxy in between reset the stream; 13: Internal; 4: DeadlineExceeded; -1: clean end of stream, io.EOF)
+	KillCode int   `json:"kill_code,omitempty"`
+	Ops      []gop `json:"ops"`
 }
 
 const staticName = "static-svc"
@@ -375,6 +379,12 @@ func checkGrpc(c grpcCase) (inf info, v *verdict) {
 	}
 	defer srv.Close()
 	srv.ResyncAll = c.ResyncAll
+	switch {
+	case c.KillCode < 0:
+		srv.SetKillCode(codes.OK)
+	case c.KillCode > 0:
+		srv.SetKillCode(codes.Code(c.KillCode))
+	}
 	if err := srv.Start(); err != nil {
 		return inf, nil
 	}
@@ -543,6 +553,7 @@ func genEps(t *rapid.T, label string, max int) []epRef {
 func genCase(t *rapid.T) grpcCase {
 	var c grpcCase
 	c.ResyncAll = rapid.Bool().Draw(t, "resync_all")
+	c.KillCode = rapid.SampledFrom([]int{0, 0, 1, 1, 13, 4, -1}).Draw(t, "kill_code")
 	c.Static = rapid.Bool().Draw(t, "static")
 	// usually start with a few complete services so that later steps hit running processors
 	for i, n := 0, rapid.IntRange(0, 3).Draw(t, "init"); i < n; i++ {
